@@ -6,6 +6,7 @@ import fam_alpha
 import fam_textio
 import fam_cache
 import fam_cachecli
+import fam_cli
 
 
 def lookup(prop):
@@ -25,4 +26,6 @@ def lookup(prop):
         return fam_cache.run
     if prop == "C14":
         return fam_cachecli.run
+    if prop == "C15":
+        return fam_cli.run
     return None
